@@ -137,6 +137,11 @@ def branch_locals(then):
             for a in c:
                 if a.get('k') == 'Ref' and a.get('dk') == 'local':
                     locs.setdefault(a['d'], a['n'])
+        # ... or of a helper of the loader that is handed the attribute itself (`loadUnitRealAttribute(units, node, attribute, ..., exponent)`)
+        if x.get('k') == 'Call' and not x.get('opc') and x.get('mc') and c and c[0].get('k') in ('This', 'NoObj') and any('XmlAttribute' in (a.get('t') or '') for a in c[1:]):
+            for a in c[1:]:
+                if a.get('k') == 'Ref' and a.get('dk') == 'local' and 'XmlAttribute' not in (a.get('t') or '') and (a.get('t') or '') in ('double', 'int', 'std::basic_string<char>', 'unsigned long'):
+                    locs.setdefault(a['d'], a['n'])
     return locs
 
 
